@@ -120,6 +120,30 @@ func runC35s(env *kernel.Env) {
 		return ids[T.Draw(len(ids))], true
 	}
 	steps := T.Range(6, 30)
+	// explicit transactions: while one connection has a transaction open only it
+	// writes (the backend documents no isolation between overlapping writers);
+	// the others read and must see the committed state only
+	txOwner := -1
+	var committed map[int64]int64
+	copyModel := func(m map[int64]int64) map[int64]int64 {
+		c := map[int64]int64{}
+		for k, v := range m {
+			c[k] = v
+		}
+		return c
+	}
+	connect := func(ci int) bool {
+		c := clients[ci]
+		var cerr error
+		c.NetID = w.nextNetID()
+		c.Start(c.ConnectOp("root", "", "", &cerr), nil)
+		if !w.Settle(clients, 5*time.Second) || cerr != nil {
+			env.Fail("connect-succeeds", "connect-failed", "%s could not reconnect: %v", c.Name, cerr)
+			return false
+		}
+		stmts[ci] = map[string]driver.Stmt{}
+		return true
+	}
 	for step := 0; step < steps && !env.Failed(); step++ {
 		ci := T.Draw(n)
 		c := clients[ci]
@@ -127,6 +151,91 @@ func runC35s(env *kernel.Env) {
 		var q, kind string
 		wantErr := false
 		apply := func() {}
+		// transaction control and connection loss
+		if tc := T.Draw(8); tc == 0 {
+			switch {
+			case txOwner < 0:
+				c.Start(c.ExecOp("BEGIN", r), nil)
+				if !drive(c, "begin") {
+					return
+				}
+				env.Kind("begin")
+				env.Logf("%s: BEGIN -> err=%v", c.Name, r.Err)
+				if r.Err != nil {
+					env.Fail("valid-statement-succeeds", "statement-refused:begin", "%s: BEGIN failed: %v", c.Name, r.Err)
+					return
+				}
+				txOwner, committed = ci, copyModel(model)
+			case T.Bool(1, 3):
+				// the owner's connection is lost: the server must roll the transaction back
+				o := clients[txOwner]
+				env.Kind("reset-in-transaction")
+				env.Fault("reset-in-transaction")
+				env.Logf("RESET connection of %s inside its transaction", o.Name)
+				w.Net.Reset(o.NetID)
+				o.Start(o.CloseOp(), nil)
+				w.Settle(clients, 5*time.Second)
+				w.Sched.Advance(2 * time.Second)
+				w.Settle(clients, 5*time.Second)
+				model, committed = committed, nil
+				if !connect(txOwner) {
+					return
+				}
+				txOwner = -1
+			default:
+				o := clients[txOwner]
+				end := []string{"COMMIT", "ROLLBACK"}[T.Draw(2)]
+				o.Start(o.ExecOp(end, r), nil)
+				if !drive(o, end) {
+					return
+				}
+				env.Kind(strings.ToLower(end))
+				env.Logf("%s: %s -> err=%v", o.Name, end, r.Err)
+				if r.Err != nil {
+					env.Fail("valid-statement-succeeds", "statement-refused:"+strings.ToLower(end), "%s: %s failed: %v", o.Name, end, r.Err)
+					return
+				}
+				if end == "ROLLBACK" {
+					model = committed
+					env.Fault("rollback")
+				}
+				txOwner, committed = -1, nil
+			}
+			// the committed state, read in process
+			e := ip.exec("SELECT id, x FROM w ORDER BY id")
+			var parts []string
+			for _, row := range e.rows {
+				parts = append(parts, "("+strings.Join(row, ",")+")")
+			}
+			want := render()
+			if txOwner >= 0 {
+				cur := model
+				model = committed
+				want = render()
+				model = cur
+			}
+			if got := strings.Join(parts, " "); e.err == nil && got != want {
+				env.Fail("transactions-commit-or-roll-back", "committed-state-differs", "after the transaction step table w (committed state) holds [%s]; it must hold [%s]", got, want)
+			}
+			continue
+		}
+		if txOwner >= 0 && ci != txOwner {
+			// not the owner: a read of the committed state
+			c.Start(c.QueryOp("SELECT id, x FROM w ORDER BY id", nil, false, r), nil)
+			if !drive(c, "read") {
+				return
+			}
+			cur := model
+			model = committed
+			want := render()
+			model = cur
+			env.Kind("read:outside-transaction")
+			env.Logf("%s: read w while %s has a transaction open -> %s", c.Name, clients[txOwner].Name, rowsOf(r))
+			if r.Err == nil && rowsOf(r) != want {
+				env.Fail("no-uncommitted-data-visible", "uncommitted-or-stale-rows", "%s reads w as [%s] while %s has an open transaction; the committed state is [%s]", c.Name, rowsOf(r), clients[txOwner].Name, want)
+			}
+			continue
+		}
 		switch T.Pick(5, 4, 2, 2, 3, 2, 2, 2, 5, 2) {
 		case 0: // INSERT two fresh rows
 			kind = "insert"
@@ -292,8 +401,17 @@ func runC35s(env *kernel.Env) {
 		for _, row := range e.rows {
 			parts = append(parts, "("+strings.Join(row, ",")+")")
 		}
-		if got := strings.Join(parts, " "); e.err == nil && got != render() {
-			env.Fail("acknowledged-writes-stay", "committed-write-lost", "after %s ran %q (err=%v) table w holds [%s]; the acknowledged writes add up to [%s]", c.Name, q, r.Err, got, render())
+		want := render()
+		if txOwner >= 0 {
+			cur := model
+			model = committed
+			want = render()
+			model = cur
+		}
+		if got := strings.Join(parts, " "); e.err == nil && got != want && txOwner >= 0 {
+			env.Fail("no-uncommitted-data-visible", "uncommitted-write-visible", "after %s ran %q (err=%v) inside its transaction, table w read by another session holds [%s]; the committed state is [%s]", c.Name, q, r.Err, got, want)
+		} else if e.err == nil && got != want {
+			env.Fail("acknowledged-writes-stay", "committed-write-lost", "after %s ran %q (err=%v) table w holds [%s]; the acknowledged writes add up to [%s]", c.Name, q, r.Err, got, want)
 		}
 	}
 }
